@@ -195,11 +195,23 @@ class C09(Prop):
             "(subpixel_offsets rows, subpixels_per_pixel, warmup) and the to_array/from_array round trip are compared with the model's "
             "exact setter and the statement of offsets_setter_exact is evaluated on the reported rows; enumerated: every single offset "
             "n/d with d <= 30, n <= 2d, every two-offset list with denominators <= 12 and numerators below them. Reconstructions with a "
-            "denominator 10..12 on 1-2 line stacks at magnification 1 (feature recon:den>=10, ~3 %). Two-step histories on ONE SRRLaser "
-            "object (feature history, ~12 %): every observation of a reconstruction case, then one or two changes of the object "
-            "(a layer of laser.data replaced by a new array of the same shape, cells of a layer or a whole layer edited in place, the "
-            "config replaced or changed through its setters), then every observation again, compared with the model of the NEW stack "
-            "and config")
+            "denominator 10..12 on 1-2 line stacks at magnification 1 (feature recon:den>=10, ~3 %). Histories on ONE SRRLaser "
+            "object (feature history, ~18 % + 33 fixed ones in targeted()): every observation of a reconstruction case, then one to three "
+            "changes of the object, then every observation again (in a quarter of the multi-step histories also between the steps: "
+            "feature history:observed3x), compared with the model of the NEW stack and config. The changes: a layer of laser.data "
+            "replaced by a new array of the same shape, cells of a layer or a whole layer edited in place, the config replaced or "
+            "changed through its setters, its raster parameters assigned so that the magnification becomes another integer "
+            "(history:magnification-change); the ELEMENT SET changed (history:element-set-change, about half of the histories): "
+            "SRRLaser.rename (one name, all, a swap, a chain, a key naming nothing), SRRLaser.add (same or another sample dtype), "
+            "SRRLaser.remove (one name as str or list, several); laser.data replaced (as a list or item by item) by layers with another "
+            "sample dtype / payload scale (history:dtype-change), other names or number of elements, another footprint, another number "
+            "of layers; a layer appended / popped (history:layer-count-change); the arrays the earlier reconstructions returned "
+            "overwritten by the caller (history:scribble-on-returned-arrays). The stack after the changes is computed by Lean "
+            "(Stack.applyAll) from the first stack and the list of changes and also compared with laser.data. Sample dtypes "
+            "(features dtype:<f4 / <i8 / <i4 / <u2, dtype:mixed-fields; 25 % of the fresh reconstructions, half of the histories): "
+            "payload = token * scale with scale 1, 1/2 or 1/4 for float fields (payload:fractional: a float stack reconstructed "
+            "through an integer buffer would lose the fraction), tokens from 1, from beyond 2^32 (payload:beyond-2^32: a float64 / int64 "
+            "stack squeezed through float32 / int32 would change) or negative")
     trusted = [
         "'integer magnification' means spotsize/(speed*scantime) evaluates to an integer in float64 (DESIGN 6a); the driver computes "
         "that float64 value itself from the three inputs (PewModel/Srr.lean `fl`: round to nearest, ties to even, normal range) and the "
@@ -227,10 +239,20 @@ class C09(Prop):
         "by Lean from the INPUTS (constructor arguments, then the setter calls / set_equal_subpixel_offsets / replacement made on the "
         "object, `ops`), never from what the implementation reports; the implementation's getters (warmup, magnification, "
         "subpixel_offsets, subpixels_per_pixel) and its array form are compared with that configuration too (impl-vs-model)",
-        "history cases change the stack only through the public list `laser.data` (item assignment of a same-shape, same-dtype array, "
-        "or element assignment into a layer) and the configuration only through `laser.config` (assignment of a new SRRConfig, its "
-        "`subpixel_offsets` / `warmup` setters, `set_equal_subpixel_offsets`); every reconstruction is required to follow the stack and "
-        "config the object holds when it is called ('for every stack ... and every accepted configuration')",
+        "history cases change the stack only through the public interface: the list `laser.data` (assignment of the list or of an item, "
+        "append, pop, element assignment into a layer), `SRRLaser.rename / add / remove`; and the configuration only through "
+        "`laser.config` (assignment of a new SRRConfig, its `subpixel_offsets` / `warmup` setters, `set_equal_subpixel_offsets`, "
+        "assignment of spotsize / speed / scantime); every reconstruction is required to follow the stack and config the object holds "
+        "when it is called ('for every stack ... and every accepted configuration'); no state of an earlier call is part of the "
+        "specification (Lean's krisskross is a function of the stack and the configuration alone)",
+        "all layers of a stack share one structured dtype; a sample is token * scale, held exactly by its field's dtype (checked inside "
+        "evaluate for the stack Lean computes: a case whose tokens do not fit is hypothesis-excluded); steps a shrinker could make "
+        "meaningless (a name that is not there, a duplicate, nothing left after remove, pop below two layers... = Lean's Stack.apply "
+        "answers none) are hypothesis-excluded before anything is done to the object",
+        "get(flat=True) WITHOUT an element stores np.mean in a structured array of the stack's own dtype, so for an INTEGER field the "
+        "mean is truncated: the structured flat image of integer fields is not compared (feature 'flat(structured) of an integer "
+        "field...'); get(element, flat=True) of the same field returns the float64 mean and IS compared; see notes/TC09.md",
+        "np.mean of float32 layers is a float32: the flat image of a '<f4' field is compared at 2^-22 relative",
         "config-only cases outside the hypotheses of offsets_setter_exact (empty list, denominator < 1, negative numerator) or whose "
         "lcm * numerator does not fit 2^60 are counted as hypothesis-excluded, never compared",
         "a change of the array LAYOUT (field names, order, shape) that keeps from_array(to_array(c)) = c is reported as an "
@@ -494,6 +516,33 @@ class C09(Prop):
         yield {**base, "kind": "history", "shapes": [[1, 1], [1, 1]], "steps": [{"op": "replace", "layer": 0}], "order": "std"}
         yield {**base, "kind": "history", "shapes": [[1, 2], [2, 1]], "n": 3, "steps": [{"op": "edit", "layer": 2, "cells": [[0, 0]]}],
                "order": "std"}
+        # ---- histories that change the element set / sample dtype / footprint / layer count / magnification of the SAME object
+        yield {**hbase, "steps": [{"op": "rename", "map": [["A", "C"]]}]}
+        yield {**hbase, "steps": [{"op": "rename", "map": [["A", "B"], ["B", "A"]]}], "order": "flat-first"}
+        yield {**hbase, "steps": [{"op": "add", "name": "D", "dtype": "f8"}]}
+        yield {**hbase, "steps": [{"op": "add", "name": "D", "dtype": "i8"}], "scale": 0.25}
+        yield {**hbase, "steps": [{"op": "remove", "names": ["A"], "as_str": True}], "order": "krisskross-first"}
+        yield {**hbase, "nel": 3, "steps": [{"op": "remove", "names": ["C", "A"]}]}
+        yield {**hbase, "dtype": "i8", "steps": [{"op": "setdata", "dtype": "f8", "scale": 0.25, "via": "items"}]}
+        yield {**hbase, "base": 2**40 + 1, "steps": [{"op": "setdata", "dtype": "f4", "scale": 0.5, "via": "list"}]}
+        yield {**hbase, "dtype": "f4", "scale": 0.5, "steps": [{"op": "setdata", "dtype": "u2", "via": "list"}]}
+        yield {**hbase, "steps": [{"op": "setdata", "names": ["B", "A"], "via": "items"}]}
+        yield {**hbase, "steps": [{"op": "setdata", "names": ["P"], "via": "list"}]}
+        yield {**hbase, "steps": [{"op": "setdata", "shapes": [[2, 8], [3, 5]], "via": "list"}]}
+        yield {**hbase, "steps": [{"op": "setdata", "n": 2, "via": "list"}]}
+        yield {**hbase, "steps": [{"op": "append"}]}
+        yield {**hbase, "steps": [{"op": "pop"}]}
+        yield {**hbase, "steps": [{"op": "pop", "obs": True}, {"op": "append"}]}
+        yield {**hbase, "steps": [{"op": "scribble"}]}
+        yield {**hbase, "shapes": [[3, 9], [2, 13]], "steps": [{"op": "params", "spotsize": 140.0, "speed": 140.0, "scantime": 0.25, "mag": 4}]}
+        yield {**hbase, "steps": [{"op": "params", "spotsize": 35.0, "speed": 140.0, "scantime": 0.25, "mag": 1}]}
+        yield {**hbase, "steps": [{"op": "rename", "map": [["A", "C"]], "obs": True}, {"op": "rename", "map": [["C", "A"]], "obs": True},
+                                  {"op": "edit", "layer": 1, "cells": "all"}]}
+        yield {**hbase, "steps": [{"op": "add", "name": "D", "dtype": "f4"}, {"op": "remove", "names": ["A", "B"]}]}
+        # ---- sample dtypes and payloads of a fresh stack
+        for dt, extra in (("f4", {"scale": 0.25}), ("i8", {"base": -(2**40)}), ("i4", {}), ("u2", {}), ("f8", {"scale": 0.5, "base": 2**40 + 1})):
+            yield {**base, "spotsize": 70.0, "mag": 2, "warmup": 0.25, "pairs": [[1, 3], [1, 2]], "shapes": [[3, 7], [2, 9]], "n": 3,
+                   "nel": 2, "element": 1, "dtype": dt, **extra}
         # ---- reconstruction with denominators >= 10 (1 line, magnification 1)
         yield {**base, "pairs": [[3, 10]], "shapes": [[1, 1], [1, 1]]}
         yield {**base, "pairs": [[0, 1], [5, 11]], "shapes": [[1, 2], [2, 1]], "n": 3}
@@ -583,7 +632,8 @@ class C09(Prop):
             raise core.InternalError("generator: magnification is not the intended float integer")
         cfg = make_srr_cfg(case)
         laser = SRRLaser(layers, config=cfg)
-        st = {"fields": fields, "enc": enc, "sops": [], "fscale": fscale, "fresh": fresh}
+        st = {"fields": fields, "enc": enc, "sops": [], "fscale": fscale, "fresh": fresh,
+              "low": 1 if abs(int(case.get("base", 1))) >= 2**30 else None}
         if kind == "history":
             return self.eval_history(case, ctx, laser, st)
         r = self.eval_state(case, ctx, laser, cfg, st)
@@ -877,12 +927,25 @@ class C09(Prop):
         cur["fields"], cur["shapes"] = rep["states"][-1]["fields"], rep["states"][-1]["shapes"]
         return True
 
+    def alloc(self, st, fields, shapes, fscale):
+        """fresh tokens for new layers: above every token used so far; when the dtype does not hold those and the stack started
+        beyond 2^30 (so that the small numbers are unused), from the unused small numbers.  None: they do not fit either way."""
+        enc, nxt = self.enc_stack(shapes, len(fields), st["fresh"])
+        if payload_ok(fields, enc, fscale):
+            st["fresh"] = nxt + 1
+            return enc
+        if st.get("low") is not None:
+            enc, nxt = self.enc_stack(shapes, len(fields), st["low"])
+            if nxt < 2**29 and payload_ok(fields, enc, fscale):
+                st["low"] = nxt + 1
+                return enc
+        return None
+
     def fresh_layer(self, st, fields, rows, cols, fscale):
         """a new layer of fresh tokens: (array, encoded); None when the dtype does not hold them"""
-        enc, nxt = self.enc_stack([(rows, cols)], len(fields), st["fresh"])
-        if not payload_ok(fields, enc, fscale):
+        enc = self.alloc(st, fields, [(rows, cols)], fscale)
+        if enc is None:
             return None
-        st["fresh"] = nxt + 1
         return make_layer(fields, rows, cols, enc[0]["data"], fscale), enc[0]
 
     def do_step(self, stp, case2, ctx, laser, st, cur, states, hfeats):
@@ -967,10 +1030,9 @@ class C09(Prop):
             if n2 < 2 or len(sh2) != 2 or min(min(x) for x in sh2) < 1:
                 return "excluded"
             shapes2 = [list(sh2[i % 2]) for i in range(n2)]
-            enc2_, nxt = self.enc_stack(shapes2, len(fields2), st["fresh"])
-            if not payload_ok(fields2, enc2_, fs2):
+            enc2_ = self.alloc(st, fields2, shapes2, fs2)
+            if enc2_ is None:
                 return "excluded"
-            st["fresh"] = nxt + 1
             if not self.stack_step(ctx, st, cur, {"op": "set_data", "fields": fields2, "layers": enc2_}):
                 return "excluded"
             new = [make_layer(fields2, L["rows"], L["cols"], L["data"], fs2) for L in enc2_]
@@ -1194,6 +1256,21 @@ class C09(Prop):
             for k, stp in enumerate(steps):
                 if stp["op"] == "edit" and stp["cells"] != "all" and len(stp["cells"]) > 1:
                     yield {**case, "steps": steps[:k] + [{**stp, "cells": stp["cells"][:1]}] + steps[k + 1:]}
+                if stp.get("obs"):
+                    yield {**case, "steps": steps[:k] + [{x: v for x, v in stp.items() if x != "obs"}] + steps[k + 1:]}
+                if stp["op"] == "rename" and len(stp["map"]) > 1:
+                    for q in range(len(stp["map"])):
+                        yield {**case, "steps": steps[:k] + [{**stp, "map": stp["map"][:q] + stp["map"][q + 1:]}] + steps[k + 1:]}
+                if stp["op"] == "remove" and len(stp["names"]) > 1:
+                    for q in range(len(stp["names"])):
+                        yield {**case, "steps": steps[:k] + [{**stp, "names": stp["names"][:q] + stp["names"][q + 1:]}] + steps[k + 1:]}
+                if stp["op"] == "setdata":
+                    for key in ("names", "dtype", "scale", "shapes", "n"):
+                        if key in stp:
+                            yield {**case, "steps": steps[:k] + [{x: v for x, v in stp.items() if x != key}] + steps[k + 1:]}
+        for key in ("base", "scale", "dtype"):
+            if key in case:
+                yield {x: v for x, v in case.items() if x != key}
         if case["n"] > 2:
             yield {**case, "n": case["n"] - 1}
         if case["nel"] > 1:
